@@ -34,14 +34,16 @@ def check(ctx: Ctx):
     locate.check_merge(sub2)
     c18.check_thresholds(sub2)
     locate.check_label_connectivity(sub2)
+    locate.check_dedup_metric(sub2)
     for f in sub2.findings:
-        if f.rule in ("FRAME", "FLOW", "MERGE", "THRESH", "GUARDSHAPE", "CONNECT"):
+        if f.rule in ("FRAME", "FLOW", "MERGE", "THRESH", "GUARDSHAPE", "CONNECT", "METRIC"):
             ctx.findings.append(f)
     ctx.functions |= sub2.functions
     ctx.expect("FRAME", 4)
     ctx.expect("MERGE", 6)
     ctx.expect("THRESH", 5)
     ctx.expect("CONNECT", 3)
+    ctx.expect("METRIC", 1)
     from ..rules import purity
 
     purity.check_stateless(ctx, ["droplets.image_analysis.get_length_scale"])
